@@ -68,6 +68,43 @@ theorem C02_ack_implies_renamed (hash : Bytes → Name) (fs : FS) (p : PutIn)
     simp only [hg, Option.map_some, Option.some.injEq] at hd
     simp [hd, hh]
 
+/-- A stored intact block survives any later PUT of the same hash, however that PUT ends: killed
+after any number of micro-steps, cancelled during `Compare` (`compareCancelled`), during the write
+(`cancelled`, reader outcome `err`) or not at all — the fresh process's `GetBlock` still succeeds. -/
+theorem C02_stored_block_survives_put (hash : Bytes → Name) (fs : FS) (p : PutIn)
+    (hv : (Op.put p).valid hash) (k : Nat) (b : Bytes) (hb : getBlock hash fs p.h = .ok b) :
+    ∃ b', getBlock hash (run fs ((handlePut hash fs p).1.take k)) p.h = .ok b' := by
+  by_cases hh : hash p.body = p.h
+  · unfold getBlock at hb ⊢
+    cases hg : fs.get (blockPath p.h) with
+    | none => simp [hg] at hb
+    | some f =>
+      simp only [hg] at hb
+      have hf : hash f.data = p.h := by
+        by_cases h' : hash f.data = p.h
+        · exact h'
+        · simp [h'] at hb
+      rcases put_crash_atomic hash fs p hv k with h1 | h1
+      · simp only [FS.data, hg, Option.map_some] at h1
+        cases hg' : (run fs ((handlePut hash fs p).1.take k)).get (blockPath p.h) with
+        | none => simp [hg'] at h1
+        | some f' =>
+          simp only [hg', Option.map_some, Option.some.injEq] at h1
+          exact ⟨f'.data, by simp [h1, hf]⟩
+      · simp only [FS.data] at h1
+        cases hg' : (run fs ((handlePut hash fs p).1.take k)).get (blockPath p.h) with
+        | none => simp [hg'] at h1
+        | some f' =>
+          simp only [hg', Option.map_some, Option.some.injEq] at h1
+          exact ⟨f'.data, by simp [h1, hh]⟩
+  · have : (handlePut hash fs p).1 = [] := by
+      unfold handlePut
+      split
+      · rfl
+      · simp [hh]
+    rw [this]
+    exact ⟨b, by simpa using hb⟩
+
 /-- Invariant over all histories of PUT / WriteBlock / Touch / Trash / Untrash / EmptyTrash
 micro-steps and environment steps **with a crash possible after every micro-step**: if every visible
 block (and every trashed copy that `Untrash` could bring back) of the initial state is intact, the
@@ -142,7 +179,7 @@ example : (run exCorrupt ((writeBlockEvs exW).1.take 8)).get (blockPath exH) = s
 example : (run exCorrupt (writeBlockEvs { exW with chunks := [[1]], rend := .err }).1).files
     = [(blockPath exH, ⟨[9, 9], 0⟩)] := by decide
 
-def exPut : PutIn := ⟨exH, exBody, 7, none, [exW], false⟩
+def exPut : PutIn := ⟨exH, exBody, 7, none, [exW], false, false⟩
 
 -- hypotheses of C02_ack_implies_renamed / C02_put_crash_atomic: an acknowledged PUT over a corrupt copy
 example : (Op.put exPut).valid toyHash := by
@@ -152,6 +189,12 @@ example : (Op.put exPut).valid toyHash := by
   exact ⟨rfl, fun _ => by decide⟩
 example : (handlePut toyHash exCorrupt exPut).2 = .ok200 := by decide
 example : getBlock toyHash (run exCorrupt (handlePut toyHash exCorrupt exPut).1) exH = .ok exBody := by decide
+-- C02_stored_block_survives_put: a stored block and a second PUT whose context ends during Compare
+example : ∃ b, getBlock toyHash (run exCorrupt (handlePut toyHash exCorrupt exPut).1) exH = .ok b := ⟨exBody, by decide⟩
+example : (handlePut toyHash (run exCorrupt (handlePut toyHash exCorrupt exPut).1) { exPut with compareCancelled := true }).2
+      = .disconnect ∧
+    (handlePut toyHash (run exCorrupt (handlePut toyHash exCorrupt exPut).1) { exPut with compareCancelled := true }).1.length
+      = 3 := by decide
 -- a cancelled request is not acknowledged although the block gets published
 example : (handlePut toyHash exCorrupt { exPut with cancelled := true }).2 = .disconnect := by decide
 
